@@ -24,3 +24,44 @@ impl<T> JoinHandle<T> {
 pub fn sleep(d: std::time::Duration) {
     sched::sleep_ns(d.as_nanos().min(u64::MAX as u128) as u64)
 }
+
+impl<T> JoinHandle<T> {
+    pub fn is_finished(&self) -> bool {
+        sched::yield_point(sched::Pt::Join);
+        sched::with(|i, _| i.th[self.id].st == sched::St::Done)
+    }
+}
+
+pub fn yield_now() {
+    sched::yield_point(sched::Pt::Sleep);
+}
+
+/// `std::time::Instant` on the simulated clock
+#[derive(Clone, Copy, Debug, PartialEq, Eq, PartialOrd, Ord)]
+pub struct Instant(u64);
+impl Instant {
+    pub fn now() -> Instant {
+        Instant(sched::with(|i, _| i.now))
+    }
+    pub fn elapsed(&self) -> std::time::Duration {
+        std::time::Duration::from_nanos(Instant::now().0.saturating_sub(self.0))
+    }
+    pub fn duration_since(&self, earlier: Instant) -> std::time::Duration {
+        std::time::Duration::from_nanos(self.0.saturating_sub(earlier.0))
+    }
+    pub fn saturating_duration_since(&self, earlier: Instant) -> std::time::Duration {
+        self.duration_since(earlier)
+    }
+}
+impl std::ops::Add<std::time::Duration> for Instant {
+    type Output = Instant;
+    fn add(self, d: std::time::Duration) -> Instant {
+        Instant(self.0.saturating_add(d.as_nanos().min(u64::MAX as u128) as u64))
+    }
+}
+impl std::ops::Sub<Instant> for Instant {
+    type Output = std::time::Duration;
+    fn sub(self, o: Instant) -> std::time::Duration {
+        self.duration_since(o)
+    }
+}
